@@ -613,7 +613,7 @@ class NP2Converter:
                 self.sr.close()
                 self.ap_file.unlink()
                 self.ap_file = cbin_file
-                self.sr = spikeglx.Reader(self.ap_file)
+                self.sr = spikeglx.Reader(self.ap_file, sort=False)
 
             bin_file = self.shank_info[sh]["lf_file"]
             if overwrite:
